@@ -109,13 +109,16 @@ func randomOp(g *val.Gen, p []RStep, m protoreflect.Message) ROp {
 		msgVal := fd.MapValue().Message() != nil
 		choices := []string{"MLen", "MHas", "MGet", "MClear", "MRange", "MIsValid", "MNewValue", "Has", "Get", "Clear", "Mutable", "Getter"}
 		if msgVal {
-			choices = append(choices, "MMutable", "MMutable", "MSetNew")
+			choices = append(choices, "MMutable", "MMutable", "MSetNew", "MRetained")
 		} else {
-			choices = append(choices, "MSet", "MSet", "MSet")
+			choices = append(choices, "MSet", "MSet", "MSet", "MRetained")
 		}
 		op.Op = choices[g.R.Intn(len(choices))]
-		if op.Op == "MSet" {
+		if op.Op == "MSet" || (op.Op == "MRetained" && !msgVal) {
 			op.X = scalar(fd.MapValue())
+		}
+		if op.Op == "MRetained" {
+			op.Via = "mutable"
 		}
 		if op.Op == "MClear" && op.Via == "get" {
 			op.Via = "mutable"
@@ -124,9 +127,9 @@ func randomOp(g *val.Gen, p []RStep, m protoreflect.Message) ROp {
 		n := m.Get(fd).List().Len()
 		choices := []string{"LLen", "LGet", "LTruncate", "LIsValid", "LNewElement", "Has", "Get", "Clear", "Mutable", "Getter", "SetNew"}
 		if fd.Message() != nil {
-			choices = append(choices, "LAppendMutable", "LAppendMutable", "LAppendNew")
+			choices = append(choices, "LAppendMutable", "LAppendMutable", "LAppendNew", "LRetained")
 		} else {
-			choices = append(choices, "LAppend", "LAppend", "LAppend", "LSet")
+			choices = append(choices, "LAppend", "LAppend", "LAppend", "LSet", "LRetained")
 		}
 		op.Op = choices[g.R.Intn(len(choices))]
 		switch op.Op {
@@ -142,6 +145,11 @@ func randomOp(g *val.Gen, p []RStep, m protoreflect.Message) ROp {
 			}
 		case "LAppend":
 			op.X = scalar(fd)
+		case "LRetained":
+			op.Via = "mutable"
+			if fd.Message() == nil {
+				op.X = scalar(fd)
+			}
 		}
 	case fd.Message() != nil:
 		op.Op = []string{"Has", "Get", "Mutable", "Mutable", "SetNew", "Clear", "NewField", "Getter"}[g.R.Intn(8)]
